@@ -144,6 +144,7 @@ TrRoutes ==
   /\ Check("C04", Ev.res = "ok" => (\A p \in Live(rt) \cap DOMAIN Ev.val : ToSet(Ev.val[p]) = AllowSet(rt, p)),
            <<"routes methods", Ev.val>>)
   /\ Check("C17", (rt = prevRt /\ Ev.res = "ok") => RoutesOK(Ev.val), <<"routes after rejected call", Ev.val>>)
+  /\ Check("C18", (rt.cfg.trace /\ Ev.res = "ok") => \A p \in DOMAIN Ev.val : "TRACE" \in ToSet(Ev.val[p]), <<"TRACE missing from Routes()", Ev.val>>)
   /\ Check("C19", "hasMirror" \in DOMAIN Ev => (Ev.mirror = Ev.val /\ Ev.mres = Ev.res), <<"facade routes", Ev.val, Ev.mirror>>)
 
 R == Ev.r
@@ -156,6 +157,7 @@ ServeRoot ==
   THEN /\ Check("C04", R.kind = "opt" /\ R.pat = "" /\ RootAllowOK(rt, ToSet(R.allowH)), <<"OPTIONS *", R.kind, R.allowH, SetSeq(RootAllowLo(rt))>>)
        /\ Check("C09", R.order = Reverse(rt.use), <<"order OPTIONS *", R.order>>)
   ELSE Check("C05", R.kind \in {"404", "405"}, <<"root entry", Ev.method, Ev.path, R.kind>>)
+ServeRootTrace == Check("C18", (rt.cfg.trace /\ Ev.method = "OPTIONS" /\ R.kind = "opt") => "TRACE" \in ToSet(R.allowH), <<"TRACE missing from the Allow set of OPTIONS *", R.allowH>>)
 
 ServeGeneral ==
   LET inVocab == R.pat \in Live(rt) /\ Len(R.pat) <= MaxPat /\ InVocab(rt.cfg.icpt, rt.tab[R.pat].atoms)
@@ -174,6 +176,7 @@ ServeGeneral ==
        /\ Check("C04", (R.hasAllowH => ToSet(R.allowH) = AllowSet(rt, R.pat)) /\ ToSet(R.allowN) = AllowSet(rt, R.pat),
                 <<"allow", R.pat, R.kind, "header", R.allowH, "node", R.allowN, "want", SetSeq(AllowSet(rt, R.pat))>>)
        /\ Check("C09", want.kind = R.kind => R.order = want.order, <<"order", Ev.method, R.pat, R.kind, R.order, want.order>>)
+       /\ Check("C18", rt.cfg.trace => ("TRACE" \in ToSet(R.allowN) /\ (R.hasAllowH => "TRACE" \in ToSet(R.allowH))), <<"TRACE missing from an Allow set", R.pat, R.allowH, R.allowN>>)
   /\ Check("C09", R.kind = "404" => R.order = Reverse(rt.use), <<"order 404", R.order>>)
   \* C08, independent of the specification's table: whatever pattern SERVES a method also answers OPTIONS automatically,
   \* HEAD is served by the GET handler exactly when GET is served, and HEAD is never served on its own
@@ -219,7 +222,7 @@ TrServe ==
                   /\ Check("C09", R.order = Reverse(rt.use), <<"order TRACE", R.order>>)
                   /\ Check("C18", R.order = Reverse(rt.use), <<"TRACE wrapped in more than Use", R.order>>)
              ELSE /\ Check("C18", R.kind # "trace", <<"trace handler without WithTrace", Ev.path>>)
-                  /\ IF Ev.path \in {"", "*"} THEN ServeRoot ELSE ServeGeneral
+                  /\ IF Ev.path \in {"", "*"} THEN ServeRoot /\ ServeRootTrace ELSE ServeGeneral
 
 \* ------------------------------------------------------------------ URL / CheckSyntax
 TrURL ==
